@@ -28,6 +28,7 @@ STAGES = {
     "C09": [S("regress", "^TestC09Regress$"),
             S("matrix", "^TestC09$", shards=(8, 16)),
             S("mixed", "^TestC09Mixed$", quick=3000, thorough=30000, shards=(2, 16))],
+    "C10": [S("programs", "^TestC10$", quick=2500, thorough=15000, shards=(4, 16))],
     "C16": [S("regress", "^TestC16Regress$"),
             S("schedules", "^TestC16$", quick=3000, thorough=20000, shards=(4, 16)),
             S("schedules-race", "^TestC16$", quick=300, thorough=3000, shards=(2, 16), race=True)],
